@@ -327,6 +327,7 @@ func (r *recorder) controller(rg *rng.R, settle time.Duration, done <-chan struc
 // ---------------------------------------------------------------- running one case
 
 type outcome struct {
+	Skipped bool // not run: the process already saw a hang
 	Hang    bool
 	Panic   string
 	Err     error
@@ -335,7 +336,14 @@ type outcome struct {
 	Elapsed time.Duration
 }
 
+// hangs counts watchdog expiries of this process; after the first, further runs are not attempted
+// (each costs the full watchdog and leaks the goroutines of the stuck MergeDir).
+var hangs int
+
 func runMergeDir(c *Case, gate bool, accept func(string) ach.FileAcceptance) outcome {
+	if hangs >= 1 {
+		return outcome{Hang: true, Skipped: true}
+	}
 	rec := &recorder{}
 	rec.cond = sync.NewCond(&rec.mu)
 	prefix := path.Clean(c.Dir)
@@ -384,6 +392,7 @@ func runMergeDir(c *Case, gate bool, accept func(string) ach.FileAcceptance) out
 		o.Files, o.Err, o.Panic = r.files, r.err, r.pan
 	case <-time.After(watchdog):
 		o.Hang = true
+		hangs++
 	}
 	o.Elapsed = time.Since(t0)
 	rec.mu.Lock()
@@ -563,7 +572,7 @@ func evaluate(c *Case) verdict {
 	}
 	o := runMergeDir(c, true, accept)
 	cl := class(c)
-	fail := func(key, what string) { v.Fails = append(v.Fails, failure{key, what}) }
+	fail := func(key, what string) { v.Fails = append(v.Fails, failure{key, what + " [" + cl + "]"}) }
 	// overlap of opens
 	open, max := 0, 0
 	opened := map[string]int{}
@@ -583,17 +592,20 @@ func evaluate(c *Case) verdict {
 	}
 	v.Overlap = max
 	switch {
+	case o.Skipped:
+		v.Result = "skipped-after-hangs"
+		return v
 	case o.Hang:
 		v.Result = "hang"
-		k := "mergedir:hang:" + cl
+		k := "mergedir:hang"
 		if v.Bad > 0 {
-			k = "mergedir:hang:unparseable-files:" + cl
+			k = "mergedir:hang:unparseable-files"
 		}
 		fail(k, fmt.Sprintf("MergeDir did not return within %s (%d accepted files, %d unparseable)", watchdog, v.Accepted, v.Bad))
 		return v
 	case o.Panic != "":
 		v.Result = "panic"
-		fail("mergedir:panic:"+cl, "MergeDir panicked: "+o.Panic)
+		fail("mergedir:panic", "MergeDir panicked: "+o.Panic)
 		return v
 	}
 	nworkers := c.Workers
@@ -601,7 +613,7 @@ func evaluate(c *Case) verdict {
 		nworkers = 50
 	}
 	if max > nworkers {
-		fail("mergedir:more-readers-than-workers:"+cl, fmt.Sprintf("%d files open at once with %d parse workers", max, nworkers))
+		fail("mergedir:more-readers-than-workers", fmt.Sprintf("%d files open at once with %d parse workers", max, nworkers))
 	}
 	// files that must not be read / must be read
 	accSet := map[string]bool{}
@@ -610,39 +622,39 @@ func evaluate(c *Case) verdict {
 	}
 	for p, n := range opened {
 		if !accSet[p] {
-			fail("mergedir:opened-unaccepted-file:"+cl, fmt.Sprintf("MergeDir opened %q which the acceptor skips or which is outside the walk", p))
+			fail("mergedir:opened-unaccepted-file", fmt.Sprintf("MergeDir opened %q which the acceptor skips or which is outside the walk", p))
 		} else if n > 1 {
-			fail("mergedir:file-read-twice:"+cl, fmt.Sprintf("MergeDir opened %q %d times", p, n))
+			fail("mergedir:file-read-twice", fmt.Sprintf("MergeDir opened %q %d times", p, n))
 		}
 	}
 	if v.Bad > 0 {
 		v.Result = "err"
 		if o.Err == nil {
-			fail("mergedir:unparseable-file-ignored:"+cl, fmt.Sprintf("accepted file %q cannot be parsed but MergeDir returned no error (%d output files)", firstBad, len(o.Files)))
+			fail("mergedir:unparseable-file-ignored", fmt.Sprintf("accepted file %q cannot be parsed but MergeDir returned no error (%d output files)", firstBad, len(o.Files)))
 		}
 		return v
 	}
 	if wantErr != nil {
 		v.Result = "mergefiles-err"
 		if o.Err == nil {
-			fail("mergedir:ok-where-mergefiles-fails:"+cl, "MergeFiles fails on the accepted files ("+wantErr.Error()+") but MergeDir returned no error")
+			fail("mergedir:ok-where-mergefiles-fails", "MergeFiles fails on the accepted files ("+wantErr.Error()+") but MergeDir returned no error")
 		}
 		return v
 	}
 	if o.Err != nil {
 		v.Result = "unexpected-err"
-		fail("mergedir:error-on-parseable-directory:"+cl, "every accepted file parses and MergeFiles succeeds, MergeDir returned: "+o.Err.Error())
+		fail("mergedir:error-on-parseable-directory", "every accepted file parses and MergeFiles succeeds, MergeDir returned: "+o.Err.Error())
 		return v
 	}
 	v.Result = "ok"
 	for p := range accSet {
 		if opened[p] == 0 {
-			fail("mergedir:accepted-file-not-read:"+cl, fmt.Sprintf("MergeDir returned no error but never opened accepted file %q", p))
+			fail("mergedir:accepted-file-not-read", fmt.Sprintf("MergeDir returned no error but never opened accepted file %q", p))
 			break
 		}
 	}
 	if k, d := diffCanon(canon(o.Files), canon(want)); k != "" {
-		fail("mergedir:"+k+":"+cl, d)
+		fail("mergedir:"+k, d)
 	}
 	// validity and limits, relative to MergeFiles on the same input
 	wantValid, wantMax := true, 0
@@ -659,11 +671,11 @@ func evaluate(c *Case) verdict {
 			continue
 		}
 		if err := f.Validate(); err != nil && wantValid {
-			fail("mergedir:invalid-output:"+cl, fmt.Sprintf("output file %d does not validate (%v) while every MergeFiles output does", i, err))
+			fail("mergedir:invalid-output", fmt.Sprintf("output file %d does not validate (%v) while every MergeFiles output does", i, err))
 			break
 		}
 		if n := lineCount(f); c.MaxLines > 0 && n > c.MaxLines && wantMax <= c.MaxLines {
-			fail("mergedir:line-limit-exceeded:"+cl, fmt.Sprintf("output file %d has %d lines, limit %d (MergeFiles stays within it)", i, n, c.MaxLines))
+			fail("mergedir:line-limit-exceeded", fmt.Sprintf("output file %d has %d lines, limit %d (MergeFiles stays within it)", i, n, c.MaxLines))
 			break
 		}
 	}
@@ -736,6 +748,35 @@ func newPool(r *rng.R, n int) *pool {
 		}
 	}
 	return p
+}
+
+// needsOpts damages a valid Nacha text so that it only parses under a ValidateOpts setting, and
+// returns that setting as the JSON of a side-car file.
+func needsOpts(r *rng.R, text string) (string, string) {
+	b := []byte(text)
+	if r.Bool() && len(b) > 13 && b[0] == '1' {
+		// break the check digit of ImmediateDestination (columns 5-13 of the file header)
+		if b[12] == '4' {
+			b[12] = '5'
+		} else {
+			b[12] = '4'
+		}
+		return string(b), `{"bypassDestinationValidation":true}`
+	}
+	// trace numbers that do not start with the batch's ODFI
+	lines := strings.Split(text, "\n")
+	for i, l := range lines {
+		if len(l) == 94 && l[0] == '6' {
+			lb := []byte(l)
+			if lb[79] == '9' {
+				lb[79] = '8'
+			} else {
+				lb[79] = '9'
+			}
+			lines[i] = string(lb)
+		}
+	}
+	return strings.Join(lines, "\n"), `{"customTraceNumbers":true}`
 }
 
 var garbage = []string{"garbage\n", "", "101 not a header\n", "{\"fileHeader\":", "9999999999999999999999999999999999999999999999999999999999999999999999999999999999999999999999\n"}
@@ -832,12 +873,14 @@ func genCase(r *rng.R, p *pool, g genOpts) *Case {
 				data = pick().text
 				if bad && r.Chance(1, 3) {
 					data = p.bad(r)
-				} else if c.OptsExt != "" && p.empty.text != "" && r.Chance(1, 6) {
-					data = p.empty.text
+				} else if c.OptsExt != "" && r.Chance(1, 4) {
+					// a file that parses only with the ValidateOpts of its side-car file
+					var optsJSON string
+					data, optsJSON = needsOpts(r, data)
 					side := strings.TrimSuffix(full, path.Ext(name)) + c.OptsExt
-					if _, clash := c.Files[side]; !clash && !used[path.Base(side)] {
+					if _, clash := c.Files[side]; !clash && !used[path.Base(side)] && !r.Chance(1, 8) {
 						used[path.Base(side)] = true
-						c.Files[side] = `{"allowZeroBatches":true}`
+						c.Files[side] = optsJSON
 					}
 				}
 			case ach.AcceptAsJSON:
@@ -926,9 +969,9 @@ func oracle(args []string) {
 	dist := map[string]int{}
 	sigs := map[string]bool{}
 	var samples []map[string]any
-	evals, hangs := 0, 0
+	evals := 0
 	run := func(c *Case, src string) {
-		if hangs >= 2 {
+		if hangs >= 1 {
 			return
 		}
 		v := evaluate(c)
@@ -940,9 +983,6 @@ func oracle(args []string) {
 		}
 		if v.Overlap >= 2 {
 			dist["overlapping-reads"]++
-		}
-		if v.Result == "hang" {
-			hangs++
 		}
 		if v.Accepted >= 2 {
 			sig := fmt.Sprintf("%s|%d|%d|%v|%s|%v|%d", class(c), v.Accepted, v.Bad, v.Nested, v.Result, c.NilAccept, c.MaxLines)
